@@ -3,20 +3,40 @@
 Static half: tools/py2lean/aliasir.py regenerates the alias IR of every
 function of core.py, maths.py, finitedifference.py, numerical.py, time.py,
 reading.py (Gen/AliasIR.lean); Lean proves, for every IR program that passes the
-may-alias check, that no request changes a pre-existing root (Props/C02.lean),
-and the kernel decides that the generated program passes (Gen/AliasChk*.lean).
+may-alias check, that no request changes a pre-existing root (Props/C02Core.lean),
+the kernel decides that the generated program passes (Gen/AliasChk*.lean,
+Props/C02.lean), and Props/C02Containers.lean reads the container-level claim
+off the kernel-checked summaries of the functions the property names
+(read_data, read_ET_data, read_aurel_data, save_data, join_chunks,
+read_ET_group_or_var, the transform_vars_* helpers, over_time: nothing that
+existed before the call is changed in any way; process_single_timestep: only the
+dict passed as `data`).  tools/py2lean/alias_constructs.py runs ~165 small
+functions - one per way of changing / aliasing an argument - for real, checks
+that their IR reproduces what happened, and the kernel decides that the check
+rejects every mutating one and accepts its non-mutating twin
+(Gen/AliasConstructs.lean, Props/C02Constructs.lean).  When a function fails, the
+obligation names the source lines that defeat the analysis
+(tools/py2lean/aliasdiag.py, a Python replay of `analyse`).
 
 Dynamic half (this file), on the REAL code:
   * search oracle, independent of model and translator: every input array is
     made read-only and SHA-1-hashed, likewise every array in rel.data and every
     array returned so far; after every request of a random history everything
     is re-hashed; a write into a read-only array raises inside numpy and is
-    caught with its stack.  over_time / save_data / read_data / the transform_*
-    helpers: arguments deep-copied before and compared after (lists by identity
-    of their elements and by content, arrays by hash).
+    caught with its stack.  Every description key is requested at least once
+    (non-vacuum, non-zero shift, matter; computed and served from the cache).
+    over_time / process_single_timestep with EVERY entry of est_functions and
+    custom estimators / variables, list-of-arrays and stacked layouts, read-only
+    and writable arrays, and a second over_time call on the returned dict (what
+    was handed out earlier must not change); save_data / read_data /
+    read_aurel_data / join_chunks / the transform_* helpers / read_data on
+    generated Einstein Toolkit directories: arguments deep-copied before and
+    compared after (lists by identity of their elements and by content, arrays
+    by hash).
   * translation validation: a sys.setprofile hook watches every call of a
     translated function and compares what happened with what the Lean analysis
-    claims in its summary (argument arrays changed -> must be in mutA; result
+    claims in its summary (argument arrays changed -> must be in mutA; list /
+    dict arguments of reading / time functions changed -> must be in mutC; result
     shares memory with an argument / a protected array -> must be in retOwn /
     retReach).  A disagreement is a translator-soundness failure.
 """
@@ -32,16 +52,24 @@ import traceback
 import numpy as np
 
 from lib import fw
-from py2lean import aliasir
+from py2lean import aliasdiag, aliasir, alias_constructs
 
 MODULE = "AurelVerif.Props.C02"            # D2 + T3 for the generated program (imports Gen/AliasCheck)
 MODULE_CORE = "AurelVerif.Props.C02Core"   # program-independent theorems
+MODULE_CONT = "AurelVerif.Props.C02Containers"    # container-level claims per function (summaries of the program)
+MODULE_CONS = "AurelVerif.Props.C02Constructs"    # the check on every mutating / aliasing construct (generated IR)
+THEOREMS_CONT = ["AurelVerif.C02." + t for t in (
+    "check_sound_by_summary", "containerClaimFns_summaries", "aurel_argument_containers_untouched",
+    "process_single_timestep_summary", "process_single_timestep_only_data")]
+THEOREMS_CONS = ["AurelVerif.C02." + t for t in (
+    "constructs_mutating_rejected", "constructs_harmless_accepted", "constructs_conservative_rejected")]
 THEOREMS_CORE = ["AurelVerif.C02." + t for t in (
     "check_sound", "check_sound_aliasCheck", "returned_allocated", "check_sound_containers",
     "check_sound_helpers", "history_sound")]
 THEOREMS = ["AurelVerif.C02." + t for t in ("aurel_alias_ok", "aurel_history_sound")]
 LEAN_FILES = ["AurelVerif/Props/C02.lean", "AurelVerif/Props/C02Core.lean", "AurelVerif/Lemmas/Heap.lean",
-              "AurelVerif/Model/Heap.lean",
+              "AurelVerif/Model/Heap.lean", "AurelVerif/Props/C02Containers.lean", "AurelVerif/Lemmas/C02Containers.lean",
+              "AurelVerif/Props/C02Constructs.lean", "AurelVerif/Gen/AliasConstructs.lean",
               "AurelVerif/Gen/AliasIR.lean", "AurelVerif/Gen/AliasSumm.lean", "AurelVerif/Gen/AliasCheck.lean"] + [
               "AurelVerif/Gen/AliasChk%d.lean" % k for k in range(aliasir.NCHUNKS)]
 MODFILE = {"maths": "maths.py", "numerical": "numerical.py", "fd": "finitedifference.py", "core": "core.py",
@@ -230,8 +258,10 @@ def do_request(rel, fd, req, aux):
 class Watch:
     """sys.setprofile hook: compare every call of a translated function with its Lean summary"""
 
-    def __init__(self, info, reg):
+    def __init__(self, info, reg, containers=False):
         self.reg = reg
+        self.containers = containers      # also watch list / dict arguments of the reading / time functions
+        self.kwarg = {q: (len(ps) - 1 if ps and ps[-1] == "kwargs" else None) for q, ps in info["params"].items()}
         self.rows = {r["name"]: r for r in info["rows"]}
         self.params = info["params"]
         self.code2q = {}
@@ -241,6 +271,7 @@ class Watch:
         self.stack = []
         self.problems = []
         self.calls = 0
+        self.container_changes = 0
         self.src = os.path.join(fw.SRC, "")
 
     def lookup(self, code):
@@ -264,6 +295,17 @@ class Watch:
                         r = root_of(a)
                         roots[id(r)] = (r, sha(r))
                 rec["args"].append(roots)
+            if self.containers and q.split(".")[0] in aliasir.CONTAINER_CLAIM_MODULES:
+                # list / dict arguments: (object, snapshot); for **kwargs (a dict Python builds per call) its values
+                rec["cont"] = []
+                for i, p in enumerate(self.params[q]):
+                    o = loc.get(p)
+                    if i == self.kwarg.get(q) and isinstance(o, dict):
+                        rec["cont"].append([(v, snapshot(v)) for v in o.values() if isinstance(v, (list, dict))])
+                    elif isinstance(o, (list, dict)):
+                        rec["cont"].append([(o, snapshot(o))])
+                    else:
+                        rec["cont"].append([])
             self.stack.append(rec)
             self.calls += 1
         elif event == "return":
@@ -283,6 +325,13 @@ class Watch:
                         self.problems.append({"kind": "mutated-argument", "function": q, "param": self.params[q][i],
                                               "allowed_by_summary": bool(allowed),
                                               "protected": rid in self.reg.roots})
+            for i, objs in enumerate(rec.get("cont", [])):
+                for o, snap in objs:
+                    if snapshot(o) != snap:
+                        allowed = ({2 * i + 1, 2 * i + 2} & set(sm["mutC"])) or (0 in sm["mutC"])
+                        self.problems.append({"kind": "mutated-container-argument", "function": q,
+                                              "param": self.params[q][i], "allowed_by_summary": bool(allowed)})
+                        self.container_changes += 1
             if arg is not None:
                 claim = set(sm["retOwn"]) | set(sm["retReach"])
                 for a in arrays_in(arg, 2):
@@ -318,8 +367,9 @@ FORCED = [  # cache states the property text names
 ]
 
 
-def run_history(ctx, cfg, hist, info=None, watch=False):
-    """returns list of findings (dicts); each finding is a mutation of a protected array"""
+def run_history(ctx, cfg, hist, info=None, watch=False, done=None):
+    """returns list of findings (dicts); each finding is a mutation of a protected array.
+    done: set collecting the description keys whose request returned a value"""
     rng = random.Random(cfg["seed"])
     reg = Registry()
     fd = make_fd()
@@ -354,6 +404,8 @@ def run_history(ctx, cfg, hist, info=None, watch=False):
             out, err = None, ex
         if err is not None:
             ctx.count("requests_raising_other_errors")
+        elif done is not None and req[0] == "key":
+            done.add(req[1])
         for lab in reg.changed():
             findings.append({"request": idx, "req": req, "how": "contents of a protected array changed",
                              "site": "hash:" + lab, "line": 0})
@@ -379,22 +431,35 @@ def snapshot(obj):
     return ("val", repr(obj))
 
 
-def arg_objects_checks(ctx, rng, findings):
-    """over_time, process_single_timestep, save_data, read_data, read_aurel_data, transform_vars_*"""
+def arg_objects_checks(ctx, rng, findings, info=None):
+    """over_time, process_single_timestep, save_data, read_data, read_aurel_data, transform_vars_*, join_chunks ...
+    Every call: the argument objects are deep-compared (identity of the elements of lists / dicts, contents, SHA-1 of
+    arrays) before and after, once with every argument array read-only (a write raises inside numpy) and - for the
+    time-series driver - once writable (a library that only writes when it is allowed to is caught by the hash).
+    With `info`, a profile hook compares every call of a reading / time function with its Lean summary (arrays AND
+    list / dict arguments).  Returns the hook's problems."""
     import aurel
     from aurel import reading, time as atime
     fd = make_fd()
     tmp = tempfile.mkdtemp(prefix="c02_", dir="/tmp")
     import contextlib
     import io
+    watch = Watch(info, Registry(), containers=True) if info else None
 
-    def check(name, args, kwargs, call, expect_changed=()):
+    def check(name, args, kwargs, call, expect_changed=(), readonly=True):
         before = [snapshot(a) for a in args] + [snapshot(v) for v in kwargs.values()]
         reg = Registry()
-        reg.protect(list(args) + list(kwargs.values()), "argument of " + name)
+        if readonly:
+            reg.protect(list(args) + list(kwargs.values()), "argument of " + name)
         try:
             with contextlib.redirect_stdout(io.StringIO()):
-                call()
+                if watch:
+                    sys.setprofile(watch)
+                try:
+                    call()
+                finally:
+                    if watch:
+                        sys.setprofile(None)
         except ValueError as ex:
             if "read-only" in str(ex):
                 tb = traceback.extract_tb(ex.__traceback__)
@@ -402,34 +467,83 @@ def arg_objects_checks(ctx, rng, findings):
                 s = site[-1] if site else tb[-1]
                 findings.append({"req": [name], "how": "write into a read-only argument array",
                                  "site": "%s:%s" % (os.path.basename(s.filename), s.name), "line": s.lineno})
-        except Exception:  # noqa
+            else:
+                ctx.count("arg_checks_raising_other_errors")
+                ctx.cov.setdefault("arg_check_errors", []).append("%s: %s" % (name, str(ex)[:80]))
+        except Exception as ex:  # noqa
             ctx.count("arg_checks_raising_other_errors")
+            ctx.cov.setdefault("arg_check_errors", []).append("%s: %r" % (name, ex))
         after = [snapshot(a) for a in args] + [snapshot(v) for v in kwargs.values()]
         names = ["arg%d" % i for i in range(len(args))] + list(kwargs)
         for nm, b, a in zip(names, before, after):
             if b != a and nm not in expect_changed:
                 findings.append({"req": [name], "how": "argument object %s modified" % nm,
-                                 "site": name + ":" + nm, "line": 0})
+                                 "site": name.split("[")[0] + ":" + nm, "line": 0})
         for lab in reg.changed():
-            findings.append({"req": [name], "how": "argument array changed", "site": "hash:" + name, "line": 0})
+            findings.append({"req": [name], "how": "argument array changed", "site": "hash:" + name.split("[")[0],
+                             "line": 0})
         ctx.count("argument_object_checks")
 
     try:
         inp = make_inputs(rng, fd)
         nt = 3
-        data = {"it": np.arange(nt), "t": np.arange(nt) * 0.1}
-        for k, v in inp.items():
-            data[k] = [v * (1 + 0.1 * i) for i in range(nt)]
+
+        def series(layout):
+            """the caller's time series: spatially non-uniform C-contiguous 3-d arrays per time step, as a list of
+            arrays per key or as one stacked (nt, N, N, N) array per key"""
+            d = {"it": np.arange(nt), "t": np.arange(nt) * 0.1}
+            for k, v in inp.items():
+                steps = [np.ascontiguousarray(v * (1 + 0.1 * i) + 0.01 * i * fd.x) for i in range(nt)]
+                d[k] = steps if layout == "list" else np.array(steps)
+            return d
+        data = series("list")
         for vacuum in (False, True):
             vars_ = ["Ktrace", "st_Weyl_down4", "Hamiltonian", {"mine": lambda rel: rel["alpha"] * 2}]
             est = ["max", "mean", {"mymin": np.min}]
             kw = {"vars": vars_, "estimates": est, "verbose": False, "vacuum": vacuum}
             check("over_time", [data, fd], kw, lambda: atime.over_time(data, fd, **kw))
+        # --- over_time with EVERY built-in estimator and custom ones, both layouts, read-only and writable arrays;
+        #     then again on the dict it returned: what was handed out earlier must stay as it was
+        all_est = list(atime.est_functions.keys())
+        ctx.cov["est_functions_exercised"] = len(all_est)
+        custom_est = [{"p10": lambda a: np.percentile(a, 10), "corner": lambda a: a[0, 0, 0]},
+                      {"spread": lambda a: float(np.max(a) - np.min(a))}]
+        custom_vars = [{"twice_alpha": lambda rel: rel["alpha"] * 2,
+                        "gxx_view": lambda rel: rel["gammadown3"][0, 0]}]      # a view of a cached array
+        for layout in ("list", "stacked"):
+            for readonly in (True, False):
+                d = series(layout)
+                half = all_est[::2]
+                kw = {"vars": ["Ktrace", "s_RicciS"] + custom_vars, "estimates": half + custom_est[:1],
+                      "verbose": False, "Lambda": 0.1}
+                name = "over_time[%s,%s]" % (layout, "read-only" if readonly else "writable")
+
+                def twice(d=d, kw=kw, readonly=readonly, name=name):
+                    res1 = atime.over_time(d, fd, **kw)
+                    held = Registry()
+                    if readonly:
+                        held.protect(res1, "returned by the first over_time call")
+                    snap1 = snapshot(res1)
+                    res2 = atime.over_time(res1, fd, vars=[], estimates=all_est + custom_est, verbose=False)
+                    if snapshot(res1) != snap1 or held.changed():
+                        findings.append({"req": [name], "how": "an array returned by an earlier over_time call changed "
+                                         "during a later call", "site": "over_time:returned-earlier", "line": 0})
+                    missing = [k + "_" + e for k in ("Ktrace", "alpha") for e in all_est if k + "_" + e not in res2]
+                    if missing:
+                        ctx.cov.setdefault("over_time_missing_estimates", []).extend(missing[:5])
+                    ctx.count("over_time_estimator_applications", len(all_est) + 3)
+                check(name, [d, fd], kw, twice, readonly=readonly)
         step = {k: (v[0] if isinstance(v, list) else v[0]) for k, v in data.items()}
         v1, e1 = ["Ktrace", "s_RicciS"], ["max"]
         check("process_single_timestep", [step, fd, v1, e1], {},
               lambda: atime.process_single_timestep(step, fd, v1, e1, False, None, {}),
               expect_changed=("arg0",))      # documented: adds the computed variables to its dict
+        for readonly in (True, False):
+            step2 = {k: v[1] for k, v in series("list").items()}
+            v2, e2, sk, rk = ["Ktrace"] + custom_vars, all_est + custom_est, None, {"Lambda": 0.2}
+            check("process_single_timestep[all estimators]", [step2, fd, v2, e2, rk], {},
+                  lambda: atime.process_single_timestep(step2, fd, v2, e2, False, sk, rk),
+                  expect_changed=("arg0",), readonly=readonly)
         # save / read (Aurel format)
         param = {"datapath": os.path.join(tmp, "run1")}
         sdata = {"it": [0, 10, 20], "t": [0.0, 0.1, 0.2], "rho": [inp["rho0"], inp["rho0"] * 2, inp["rho0"] * 3],
@@ -441,13 +555,68 @@ def arg_objects_checks(ctx, rng, findings):
             kw = {"vars": vs, "it": its}
             check("read_data", [param], kw, lambda: reading.read_data(param, **kw))
             check("read_aurel_data", [param], kw, lambda: reading.read_aurel_data(param, **kw))
+        # read_data / read_ET_data on generated Einstein Toolkit directories (lib/etgen.py, the generator of C11):
+        # all four file layouts, several restarts, with and without the per-iteration cache, checkpoints, an
+        # explicit restart; the caller's `it` / `vars` lists and `param` dict are deep-compared and the profile hook
+        # validates the summaries of read_ET_data, read_ET_variables, read_ET_group_or_var, read_ET_checkpoints,
+        # join_chunks, iterations ... on what really happens
+        try:
+            from lib import etgen
+            root = os.path.join(tmp, "et") + "/"
+            os.makedirs(root)
+            for k in range(ctx.budget(4, 12)):
+                desc = etgen.random_desc(rng, "c02sim%d" % k, per_proc=bool(k & 1), grouped=bool(k & 2), nlevels=1,
+                                         nmax=5, kmax=(2, 2, 2))
+                if k % 2 == 0:
+                    etgen.add_random_checkpoints(rng, desc)
+                sim = etgen.Sim(root, desc).write()
+                try:
+                    eparam = sim.param()
+                    pool = sorted(sim.all_its())
+                    for split in (False, True, True):
+                        its = rng.sample(pool, rng.randint(1, len(pool)))
+                        its = its + [its[0]]                                   # duplicates, unsorted
+                        names = list(desc["requests"])
+                        ekw = {"it": its, "vars": names, "rl": 0, "restart": -1, "split_per_it": split,
+                               "verbose": False, "skip_last": False}
+                        check("read_data[ET]", [eparam], ekw, lambda: reading.read_data(eparam, **ekw))
+                        ctx.count("read_data_ET_calls")
+                    r0 = sim.restart_numbers()[0]
+                    ekw = {"it": list(sim.its_of(r0)), "vars": [], "restart": r0, "split_per_it": False, "verbose": False,
+                           "skip_last": False}
+                    check("read_data[ET]", [eparam], ekw, lambda: reading.read_data(eparam, **ekw))
+                    ck = sim.checkpoint_its(r0)
+                    if ck:
+                        ekw = {"it": list(ck), "vars": list(desc["requests"]), "usecheckpoints": True, "verbose": False,
+                               "skip_last": False}
+                        check("read_data[ET]", [eparam], ekw, lambda: reading.read_data(eparam, **ekw))
+                        ctx.count("read_data_ET_checkpoint_calls")
+                finally:
+                    sim.remove()
+        except ImportError:
+            pass
         for fn, arg in ((reading.transform_vars_tensor_to_scalar, ["gammadown3", "alpha", "Kdown3"]),
                         (reading.transform_vars_aurel_to_ET, ["gammadown3", "alpha", "rho0"]),
                         (reading.transform_vars_ET_to_aurel, "gxx")):
             check(fn.__name__, [arg], {}, lambda: fn(arg))
+        # the module tables the transform_* helpers read must stay what the YAML file says
+        tables = [reading.aurel_tensor_to_scalar, reading.aurel_to_ET_varnames, reading.ET_to_aurel_varnames,
+                  reading.known_groups]
+        check("transform_vars (module tables)", tables, {},
+              lambda: [reading.transform_vars_tensor_to_scalar(["gammadown3", "Kdown3", "x"]),
+                       reading.transform_vars_aurel_to_ET(["gammadown3", "x"]),
+                       reading.transform_vars_ET_to_aurel_groups(["gxx", "gxy", "gxz", "gyy", "gyz", "gzz", "alp"])])
         # the two direct-call findings
         vs = list(reading.aurel_to_ET_varnames[next(iter(reading.aurel_to_ET_varnames))]) + ["alp"]
         check("transform_vars_ET_to_aurel_groups", [vs], {}, lambda: reading.transform_vars_ET_to_aurel_groups(vs))
+        # join_chunks: 1, 2, 4 and 8 chunks keyed by their origins
+        for nchunk in (1, 2, 4, 8):
+            cut = {}
+            for c in range(nchunk):
+                org = ((c & 1) * 3, ((c >> 1) & 1) * 3, ((c >> 2) & 1) * 3)
+                cut[org] = np.ascontiguousarray(rng.random() + np.arange(27.0).reshape(3, 3, 3) * (c + 1))
+            jkw = {"veryextraverbose": False}
+            check("join_chunks[%d]" % nchunk, [cut], jkw, lambda: reading.join_chunks(cut, **jkw))
         try:
             import h5py
             fn = os.path.join(tmp, "admbase-metric.h5")
@@ -464,6 +633,66 @@ def arg_objects_checks(ctx, rng, findings):
             pass
     finally:
         shutil.rmtree(tmp, ignore_errors=True)
+    if watch:
+        ctx.cov["tv_calls_watched_reading_time"] = watch.calls
+        ctx.cov["tv_container_changes_seen"] = watch.container_changes
+        return watch.problems
+    return []
+
+
+# ------------------------------------------------------- static diagnostics
+def defeating_statements(info, q):
+    """why function q fails `fnOK`: the atoms of its summary that its flags forbid, each with the source lines
+    (statement / call) that put it there (replay of the analysis by tools/py2lean/aliasdiag.py)"""
+    rows = {r["name"]: r for r in info["rows"]}
+    pub, cpub, strict = info["flags"][q]
+    mod, _ = info["lines"][q]
+    try:
+        s, blame = aliasdiag.explain(q, info["diag"]["irs"][q], rows, info["diag"]["keyfn_name"])
+    except Exception as ex:  # noqa
+        return ["(diagnostics failed: %r)" % ex]
+    out = []
+    for kind in ("mutA", "mutC"):
+        for a in s[kind]:
+            bad = (kind == "mutA" and (a == 0 or pub)) or (
+                kind == "mutC" and ((strict and a % 2 == 0) or (cpub and a % 2 == 1)))
+            if not bad:
+                continue
+            sites = blame.get((kind, a), [])
+            out.append("%s: %s changed in place (%s) by %s" % (
+                q, aliasdiag.atom_name(a, info["params"][q]), "array contents" if kind == "mutA" else "any kind",
+                "; ".join("%s.py:%s %s" % (MODFILE.get(mod, mod)[:-3], l, w) for l, w in sites[:6]) or "?"))
+    return out
+
+
+def static_section(ctx, info):
+    """obligations about what the static half establishes for the functions the property names"""
+    rows = {r["name"]: r for r in info["rows"]}
+    bad = [r["name"] for r in info["rows"] if not r["fnOK"]]
+    detail = []
+    for q in bad[:8]:
+        detail += defeating_statements(info, q)[:6]
+    ctx.obligation("analysis (Driver/C02.lean): every function of the generated IR passes the alias check",
+                   bool(info["check"]) and not bad,
+                   ("failing: %s | " % bad[:12]) + " || ".join(detail)[:3000] if bad else "all %d pass" % len(rows),
+                   kind="translation")
+    # the container-level claim: which of the named functions carry it, and with which flags
+    named = {}
+    for q in aliasir.NAMED_FUNCTIONS:
+        pub, cpub, strict = info["flags"][q]
+        named[q] = {"pub": pub, "cpub": cpub, "strict": strict, "mutC": rows[q]["mutC"], "mutA": rows[q]["mutA"]}
+    ctx.cov["container_claim"] = named
+    lacking = [q for q, f in named.items() if not (f["strict"] and (f["cpub"] or q in aliasir.CPUB_EXEMPT))]
+    ctx.obligation("container-level claim carried statically (flags strict+cpub) by every function the property names "
+                   "(process_single_timestep: strict, its documented `data` argument exempt)",
+                   not lacking, "without the claim: %s" % lacking, kind="translation")
+    # the Python replay used for diagnostics agrees with the Lean driver on the named functions
+    diff = []
+    for q in aliasir.NAMED_FUNCTIONS:
+        s, _ = aliasdiag.explain(q, info["diag"]["irs"][q], rows, info["diag"]["keyfn_name"])
+        if any(set(s[k]) != set(rows[q][k]) for k in ("mutA", "mutC", "retOwn", "retReach", "esc")):
+            diff.append(q)
+    ctx.cov["diagnostic_replay_disagrees_with_lean"] = diff
 
 
 # ----------------------------------------------------------------------- run
@@ -505,8 +734,24 @@ def dynamic(ctx, info, nhist, nreq, watch_hist):
             ctx.count("histories")
             if findings:
                 total += report(ctx, findings, {"cfg": c, "history": h[:max(f["request"] for f in findings) + 1]})
+    # every description key at least once, computed (non-vacuum, non-zero shift, matter) and then served from the
+    # cache, with and without evictions, inputs as components and as tensors
+    done = set()
+    for c in (dict(seed=rng.randrange(10 ** 9), vacuum=False, tetrad="quasi-Kinnersley", Lambda=0.3, clear=1000,
+                   tensor_inputs=False),
+              dict(seed=rng.randrange(10 ** 9), vacuum=False, tetrad="arbitrary", Lambda=0.0, clear=7,
+                   tensor_inputs=True)):
+        order = list(keys)
+        rng.shuffle(order)
+        h = [["key", k] for k in order] + [["key", k] for k in reversed(order)]
+        findings, problems, calls = run_history(ctx, c, h, info, watch=False, done=done)
+        ctx.count("histories")
+        if findings:
+            total += report(ctx, findings, {"cfg": c, "history": h[:max(f["request"] for f in findings) + 1]})
+    ctx.cov["description_keys_computed_in_sweep"] = len(done)
+    ctx.cov["description_keys_never_computed"] = sorted(set(keys) - done)
     findings = []
-    arg_objects_checks(ctx, rng, findings)
+    tv_problems += arg_objects_checks(ctx, rng, findings, info)
     total += report(ctx, findings, {"cfg": None, "history": "arg_objects_checks"})
     ctx.cov["tv_calls_watched"] = tv_calls
     return total, tv_problems
@@ -515,15 +760,21 @@ def dynamic(ctx, info, nhist, nreq, watch_hist):
 def run(ctx):
     ctx.trusted += [
         "Lean 4.33 kernel; axioms propext, Classical.choice, Quot.sound",
-        "py2lean/aliasir.py (AST -> alias IR: numpy fresh/view table, kind inference, call resolution); validated on "
-        "every run by the profile hook that compares each observed call with the Lean summary of its function",
+        "py2lean/aliasir.py (AST -> alias IR: numpy fresh/view/in-place tables checked against numpy's own signatures for "
+        "positional `out` / `overwrite_input`, kind inference, call resolution, element variables of simple local "
+        "containers, `del p` renaming); validated on every run by the profile hook that compares each observed call "
+        "with the Lean summary of its function, and by the construct tests (real run vs IR vs kernel-decided check)",
         "Model/Heap.lean: roots / versions / absorb semantics as an over-approximation of Python object graphs",
         "numpy: views share memory with their base, everything else the table calls fresh allocates",
     ]
     ctx.assumptions += [
-        "A1: callers pass the parameter types the docstrings declare (str/int/list/dict)",
+        "A1: callers pass the parameter types the docstrings declare (str/int/list/dict), also for the documented "
+        "entries of **kwargs (it: list of int, vars: list of str, restart/rl: int ...)",
         "A2: an entry of rel.data under a description key has the type the key's method returns",
-        "A3: user callbacks (custom vars / estimates) do not modify their arguments",
+        "A3: user callbacks (custom vars / estimates; numerical.dichotomy's function) do not modify their arguments",
+        "A4: AurelCore.data is the cache of the model and last_accessed / var_importance its bookkeeping: inserting or "
+        "evicting an entry is not an in-place change of a pre-existing heap object (side conditions - created in "
+        "__init__, hold numbers only, never escape - are checked by the translator on every run)",
         "objects the IR does not see (numpy internals, h5py buffers, file handles) are not modelled",
     ]
     info = None
@@ -531,9 +782,8 @@ def run(ctx):
         changed, info = aliasir.regen()
         ctx.obligation("py2lean:aliasir", True, "regenerated (changed=%s): %d functions, %d statements; callbacks %s"
                        % (changed, info["functions"], info["statements"], info["callback_sites"]), kind="translation")
-        bad = [r["name"] for r in info["rows"] if not r["fnOK"]]
-        ctx.obligation("analysis (Driver/C02.lean): every function of the generated IR passes the alias check",
-                       bool(info["check"]) and not bad, "failing: %s" % bad[:12], kind="translation")
+        static_section(ctx, info)
+        ctx.cov["simple_local_containers"] = sum(len(v) for v in info["simple_locals"].values())
         ctx.cov["ir_functions"] = info["functions"]
         ctx.cov["ir_statements"] = info["statements"]
         ctx.cov["exemptions"] = {k: sorted(v) for k, v in info["exempt"].items()}
@@ -555,15 +805,43 @@ def run(ctx):
             if not o["ok"] and bad:
                 o["detail"] = ("kernel: checkWith program summaries = false; functions failing the alias check: %s | "
                                % bad[:12]) + o["detail"][:600]
+        # container-level claims per function (kernel: the summaries of the named functions have mutC = [] / [1])
+        n1 = len(ctx.obligs)
+        ctx.prove(MODULE_CONT, THEOREMS_CONT, timeout=2400)
+        for o in ctx.obligs[n1:]:
+            if not o["ok"]:
+                why = []
+                for q in aliasir.NAMED_FUNCTIONS:
+                    r = next((r for r in info["rows"] if r["name"] == q), None)
+                    allowed = [1] if q == "time.process_single_timestep" else []
+                    if r and sorted(r["mutC"]) != allowed:
+                        info["flags"][q] = (True, True, True)
+                        why += defeating_statements(info, q)[:4]
+                o["detail"] = ("summary of a named function is not `changes nothing in place`: %s | "
+                               % " || ".join(why)[:2500]) + o["detail"][:400]
+        # construct tests: real run vs IR (Python port of the concrete semantics) vs kernel-decided check
+        try:
+            res = alias_constructs.run()
+            ctx.cov["constructs"] = res["counts"]
+            ctx.obligation("construct tests: every way of changing / aliasing an argument (augmented assignment, out=, "
+                           "positional out, overwrite_input=, in-place methods, views, list / dict mutators, nested "
+                           "containers ...) is run for real and its IR reproduces the change; unclassified constructs "
+                           "are refused", not res["problems"] and not res["refused_bad"],
+                           "; ".join(res["problems"][:6] + ["NOT refused: %s" % n for n in res["refused_bad"]]),
+                           kind="translation")
+            ctx.prove(MODULE_CONS, THEOREMS_CONS, timeout=1200)
+        except Exception as ex:  # noqa
+            ctx.obligation("construct tests", False, "crashed: %r" % ex, kind="translation")
         ctx.forbidden_scan(LEAN_FILES)
         if ctx.tier == "thorough":
-            ctx.leanchecker([MODULE])
+            ctx.leanchecker([MODULE, MODULE_CONT, MODULE_CONS])
     # dynamic monitor: search oracle (always) + translation validation
     broken = bool(ctx.broken())
     nhist = ctx.budget(150, 1500) * (3 if broken else 1)
     found, tv = dynamic(ctx, info, nhist, ctx.budget(30, 40), watch_hist=ctx.budget(10, 60) if info else 0)
     if info is not None:
-        bad = [p for p in tv if not (p["kind"] == "mutated-argument" and p["allowed_by_summary"])]
+        bad = [p for p in tv if not (p["kind"] in ("mutated-argument", "mutated-container-argument")
+                                     and p["allowed_by_summary"])]
         ctx.obligation("translation validation: every observed call agrees with the Lean summary of its function "
                        "(%d calls watched)" % ctx.cov.get("tv_calls_watched", 0),
                        not bad, "; ".join(str(p) for p in bad[:5]), kind="correspondence")
@@ -588,19 +866,34 @@ MANIFEST = {
     "category": "proof",
     "technique": "Lean 4: soundness theorem for a summary-based may-alias / taint analysis over an alias IR "
                  "(induction on call depth and statements, checked post-fixpoints for loops and recursion); the IR "
-                 "of every function is regenerated from the ASTs and the kernel decides that it passes; dynamic "
-                 "read-only/SHA-1 monitor on the real code as search oracle and per-call translation validation",
+                 "of every function is regenerated from the ASTs and the kernel decides that it passes; per-function "
+                 "container claims read off the kernel-checked summaries; construct tests (real run vs IR vs "
+                 "kernel-decided check) for every way of changing or aliasing an argument; dynamic read-only/SHA-1 "
+                 "monitor on the real code as search oracle and per-call translation validation",
     "text": "Proof for every alias-IR program, initial heap, argument list, branch/loop oracle and request history: "
             "if the may-alias check accepts the program, a request by a public function never changes the contents "
             "of an array that existed before it (inputs, cache entries, everything returned earlier), and what it "
-            "returns is such an unmodified object or was allocated during the request; for save_data, read_aurel_data "
-            "and the transform_vars helpers also the argument lists/dicts. The IR of all 297 functions of core, "
-            "maths, finitedifference, numerical, time and reading is regenerated from the source on every run and "
-            "kernel-checked; a profile hook validates the IR against every observed call.",
-    "note": "Trusted: Lean kernel (+propext/Classical.choice/Quot.sound); the AST->IR translator with its numpy "
-            "fresh/view table and kind inference (validated per call on every run); the heap model as an "
-            "over-approximation of Python object graphs. Partial: container-level claim not established statically "
-            "for read_data/read_ET_data/join_chunks (array-level claim holds; arguments deep-compared dynamically). "
-            "Two direct-call findings recorded (transform_vars_ET_to_aurel_groups, read_ET_group_or_var mutate the "
-            "caller's list). User callbacks assumed pure.",
+            "returns is such an unmodified object or was allocated during the request; whatever ANY function changes "
+            "in place is covered by an atom of its summary (T1s). For the code as it is now the kernel checks the "
+            "summaries of all 297 functions of core, maths, finitedifference, numerical, time and reading "
+            "(regenerated from the source on every run) and, from them: read_data, read_ET_data, read_aurel_data, "
+            "save_data, join_chunks, read_ET_group_or_var, read_ET_variables, read_ET_checkpoints, the four "
+            "transform_vars helpers and over_time change nothing that existed before the call - not the caller's "
+            "it/vars lists, param dict, data dict of lists, per-time-step arrays, module tables; "
+            "process_single_timestep changes only the dict passed as `data` (documented). ~165 constructs "
+            "(augmented assignment, out=, positional out, overwrite_input=, in-place methods, views, list/dict "
+            "mutators, nested containers) are run for real, their IR reproduces the change, and the kernel decides "
+            "that the check rejects every mutating one and accepts its non-mutating twin. A profile hook validates "
+            "the IR against every observed call (arrays and list/dict arguments).",
+    "note": "Trusted: Lean kernel (+propext/Classical.choice/Quot.sound); the AST->IR translator (numpy "
+            "fresh/view/in-place tables checked against numpy's signatures, kind inference, element variables of "
+            "simple local containers; validated per call and by the construct tests on every run); the heap model as "
+            "an over-approximation of Python object graphs. Assumptions: A1 documented parameter and keyword-entry "
+            "types; A2 cache entries have the type their method returns; A3 user callbacks are pure "
+            "(call sites time.py:381/429/435/483/559, numerical.py:39/45/50); A4 AurelCore.data / last_accessed / "
+            "var_importance are the cache and its bookkeeping, not heap objects (side conditions checked). Not "
+            "covered statically: collect_overall_iterations and saveprint update their argument by design; mutation "
+            "through objects the IR does not see (numpy internals, h5py). Translator gaps found and closed in this "
+            "round: einsum(out=) and positional out were ignored, overwrite_input=, np.flip and x.conj() (views) were "
+            "classified as fresh, list.sort(x) through the type, impure entries of function tables.",
 }
